@@ -120,6 +120,13 @@ def cases(ctx):
     out.append({"kind": "for:nested-const", "rom": "low", "spec": {"t": "twin", "labels": False},
                 "src": f"*={org:#08x}\nc := 2\n.for a := 0, 3 {{\n.for b := 0, c {{\n.if c - 1 {{\n.db a, b\n}}\n}}\n}}\n",
                 "twin_src": f"*={org:#08x}\n.db 0, 0, 0, 1, 1, 0, 1, 1, 2, 0, 2, 1\n"})
+    # a taken branch whose generation fails (a name unknown at expansion time in `:=` / a loop bound / a code lookup) fails
+    # the assembly: it is never read as "condition false"
+    for bad in ("zz_x := zz_later\n.db zz_x\n", ".for zz_q := 0, zz_later {\nnop\n}\n", "{{zz_nocode}}\n",
+                ".if 1 {\nzz_y := zz_later\n}\n", ".macro zz_bm() {\nzz_z := zz_later\n}\nzz_bm()\n"):
+        for tail in ("", "} else {\n.db 0xEE\n"):
+            out.append({"kind": "if-taken-block-fails", "rom": "low", "spec": {"t": "reject"},
+                        "src": f"*={org:#08x}\n.db 0x10\n.if 1 {{\n{bad}{tail}}}\nzz_later = 3\n.db 0x33\n"})
     return core.mark_must_assemble(out, {'for', 'if-late-name', 'if-empty', 'if'})
 
 
